@@ -192,6 +192,7 @@ def run_concurrent(sim, specs, chooser, shared_prefixes=()):
         p = P.make_proc(sim.npid, spec)
         procs.append(p)
     sch = Scheduler(procs, chooser, shared_prefixes)
+    K._rp_cache.clear()
     saved = (sys.argv, sys.stdin, sys.stdout, sys.stderr, dict(os.environ), O.getcwd())
     old_umask = os.umask(K.umask)
     t0 = len(K.trace)
